@@ -270,6 +270,26 @@ fn stuck_class(d: &Driver) -> &'static str {
         .filter(|&v| d.sim.nodes[v].raw.as_ref().unwrap().raft.state == StateRole::Leader)
         .collect();
     if leaders.is_empty() {
+        // a voter that outranks (priority) a candidate refuses it unless the candidate's log is
+        // longer *by index*; if the outranking voter's own log is longer by index but older by
+        // term, neither of the two can ever collect the other's vote
+        for &a in &run {
+            for &b in &run {
+                if a == b {
+                    continue;
+                }
+                let (ra, rb) = (d.sim.nodes[a].raw.as_ref().unwrap(), d.sim.nodes[b].raw.as_ref().unwrap());
+                let (la, lb) = (&ra.raft.raft_log, &rb.raft.raft_log);
+                let a_is_voter = d.sim.nodes[b].conf.is_voter(d.sim.nodes[a].id);
+                if a_is_voter
+                    && ra.raft.priority > rb.raft.priority
+                    && lb.last_term() > la.last_term()
+                    && lb.last_index() <= la.last_index()
+                {
+                    return "no-leader/higher-priority-voter-refuses-candidate-with-newer-but-shorter-log";
+                }
+            }
+        }
         return "no-leader";
     }
     if leaders.len() > 1 {
